@@ -68,7 +68,6 @@ InsertPosts(q, id, p, after, before) ==
      ELSE IF after # None THEN {InsAt(base, IdxOf(base, after) + 1, r)}
      ELSE IF old THEN {[q EXCEPT ![IdxOf(q, id)] = r]}
      ELSE IF Ovr /\ Len(q) >= 1 /\ q[1].id = Master THEN {InsAt(q, 2, r)}
-     ELSE IF Ovr /\ Len(q) >= 1 THEN {InsAt(q, 1, r), InsAt(q, 2, r)}
      ELSE {InsAt(q, 1, r)}
 
 Insert(id, p, after, before) == InsertOk(id, after, before) /\ s' \in InsertPosts(s, id, p, after, before)
